@@ -77,6 +77,16 @@ void check_scan(Ctx &c, const Model &m, const ldb_snapshot_t *s, const char *pro
 }
 
 void sweep(Ctx &c, const char *why) {
+  // cost bound: after the first 40 full sweeps of a run, three out of four are replaced by a sampled check
+  if (g_out->counts["sweeps"] >= 40 && c.aux.below(4) != 0) {
+    for (int i = 0; i < 12 && !c.keys.empty() && !failed(); i++) {
+      const string &k = c.keys[c.aux.below(c.keys.size())];
+      check_get(c, k, c.model, nullptr, "C01", why);
+      for (int sidx = 0; sidx < NSNAP && !failed(); sidx++) if (c.snaps[sidx].s && c.aux.below(2)) check_get(c, k, c.snaps[sidx].m, c.snaps[sidx].s, "C06", why);
+    }
+    count("sampled_sweeps");
+    return;
+  }
   for (auto &k : c.keys) { check_get(c, k, c.model, nullptr, "C01", why); if (failed()) return; }
   check_scan(c, c.model, nullptr, "C01", why);
   for (int i = 0; i < NSNAP && !failed(); i++)
@@ -368,9 +378,10 @@ Plan gen_model(uint64_t seed, const string &prop) {
   std::vector<string> keys = make_keyspace(r, nkeys);
   int sizeclass = (int)r.below(10);
   int nops = sizeclass < 3 ? (int)r.range(10, 60) : sizeclass < 9 ? (int)r.range(100, 400) : (int)r.range(800, 1500);
-  bool big_values = r.chance(0.05);
+  bool big_values = r.chance(0.05) && !g_light;
   bool mid_values = r.chance(0.4);
   if (big_values) nops = std::min(nops, 300);
+  if (g_light) nops = std::min(nops, 250);
   // swarm weights
   double w[O_NKINDS] = {0};
   auto sw = [&](double base) { static const double f[] = {0, 0.5, 1, 1, 2, 4}; return base * r.pick(f); };
@@ -389,6 +400,7 @@ Plan gen_model(uint64_t seed, const string &prop) {
   // compaction cuts its output inside that key)
   int style_draw = (int)r.below(20);
   int style = style_draw < 12 ? 0 : style_draw < 18 ? 1 : 2;
+  if (g_light && style == 2) style = 1;
   p.seti("style", style);
   size_t win_base = 0, win_width = (size_t)r.range(2, 6);
   string hot = keys[keys.size() / 2];
@@ -415,6 +427,33 @@ Plan gen_model(uint64_t seed, const string &prop) {
     if (mid_values && c >= 90) return (uint32_t)r.range(20000, 100000);
     return (uint32_t)r.range(100, 3000);
   };
+  // style 3 (staged): build, with randomised parameters, the layout in which one user key's versions straddle two
+  // adjacent files of level N while a level N+1 file reaches into the first of them - the situation boundary-file
+  // handling in compaction input selection exists for - then compact a neighbouring range at level N.
+  if (style == 2 && keys.size() >= 10 && r.chance(0.5)) {
+    p.seti("style", 3);
+    p.cfg.cmp = 0; p.cfg.comp = 0; p.cfg.mfs = 1 << 20; p.cfg.wbs = 4 << 20;
+    size_t mid = keys.size() / 2; if (mid < 8) mid = 8; if (mid >= keys.size()) mid = keys.size() - 1;
+    hot = keys[mid];
+    int N = (int)r.range(1, 3);
+    auto put = [&](const string &k, uint32_t len) { Op o; o.kind = O_PUT; o.key = k; o.tag = tag++; o.len = len; o.fill = 1; p.ops.push_back(o); };
+    auto flush = [&]() { Op o; o.kind = O_FLUSH; p.ops.push_back(o); };
+    auto push_down = [&](int upto) { for (int l = 0; l <= upto; l++) { Op o; o.kind = O_COMPACT_RANGE; o.a = l; o.b = 0; p.ops.push_back(o); } };
+    // phase A: a file at level N+1 that ends just below the hot key
+    put(keys[mid - 7], (uint32_t)r.range(100, 2000)); put(keys[mid - 2], (uint32_t)r.range(100, 2000)); flush(); push_down(N);
+    // phase B: level N gets  a = [k(mid-6)..k(mid-4)] (about 1 MiB),  b1 = [k(mid-3) .. hot@newer],  b2 = [hot@older ..]
+    put(keys[mid - 6], (uint32_t)r.range(500000, 560000)); put(keys[mid - 4], (uint32_t)r.range(500000, 560000));
+    put(keys[mid - 3], (uint32_t)r.range(100, 3000));
+    int nver = (int)r.range(4, 6);
+    for (int v = 0; v < nver; v++) { Op sn; sn.kind = O_SNAP; sn.a = v; p.ops.push_back(sn); put(hot, (uint32_t)r.range(260000, 400000)); }
+    if (mid + 1 < keys.size()) put(keys[mid + 1], (uint32_t)r.range(100, 3000));
+    flush(); if (N > 0) push_down(N - 1);
+    { Op o; o.kind = O_SWEEP; p.ops.push_back(o); }
+    // phase C: compact the neighbouring range at level N
+    { Op o; o.kind = O_COMPACT_RANGE; o.a = N; o.b = 1; o.key = keys[mid - 6]; o.key2 = keys[mid - 4]; p.ops.push_back(o); }
+    { Op o; o.kind = O_SWEEP; p.ops.push_back(o); }
+    nops = std::min(nops, 60);
+  }
   for (int i = 0; i < nops; i++) {
     double x = r.unit() * tot; int k = 0;
     for (; k < O_NKINDS - 1; k++) { if (x < w[k]) break; x -= w[k]; }
